@@ -34,6 +34,7 @@ class TcpPeer(object):
         self.connections = 0
         self.error = None
         self.lock = threading.Lock()
+        self.session_done = threading.Event()     # set whenever a connection has been served to its end (the client closed it)
         self.thread = threading.Thread(target=self._run, name="tcp-peer", daemon=True)
         self.thread.start()
 
@@ -50,6 +51,7 @@ class TcpPeer(object):
                 conn.setsockopt(socket.IPPROTO_TCP, socket.TCP_NODELAY, 1)
                 with self.lock:
                     self.sim.new_connection()
+                self.session_done.clear()
                 try:
                     self._serve(conn)
                 finally:
@@ -57,6 +59,7 @@ class TcpPeer(object):
                         conn.close()
                     except OSError:
                         pass
+                    self.session_done.set()
         except Exception as e:  # noqa
             self.error = e
 
@@ -96,7 +99,10 @@ class TcpPeer(object):
                     return
                 self.sent += len(out)
 
-    def stop(self):
+    def stop(self, drain=2.0):
+        # let the peer read everything the client wrote before it closed (otherwise the last packets may be missing from the log)
+        if self.connections and drain:
+            self.session_done.wait(drain)
         self.stop_flag = True
         self.thread.join(5)
         try:
